@@ -40,6 +40,9 @@ class AnalysisError(Exception):
     pass
 
 
+MAX_CANDIDATE_KEYS = 4096
+
+
 def xortool(
     ciphertext: bytes,
     try_chars: list[int],
@@ -195,6 +198,15 @@ def guess_keys(text: bytes, most_char: int, known_key_length: int) -> list[bytes
         for char in chars_count:
             if chars_count[char] >= max_count:
                 key_possible_bytes[offset].append(char ^ most_char)
+
+    # The number of candidate keys is the product of the ties at every offset (2**19 for a 20 byte key
+    # with two equally frequent bytes per offset): keep only the first candidate once it passes a bound.
+    combinations = 1
+    for offset, possible_bytes in enumerate(key_possible_bytes):
+        if combinations * len(possible_bytes) > MAX_CANDIDATE_KEYS:
+            key_possible_bytes[offset] = possible_bytes[:1]
+        else:
+            combinations *= len(possible_bytes)
 
     return all_keys(key_possible_bytes)
 
